@@ -468,21 +468,67 @@ def _flag_stores(c):
                 sty = g.srcty.strip()
                 if sty not in ('%struct.cfg_opt_t', '%struct.cfg_t') or len(g.ops) != 3 or mod.field_name(sty, g.ops[2].ival) != 'flags':
                     continue
-                kind, mask = 'assign', None
-                v = ins.ops[0]
-                d = f.defs.get(v.name) if v.kind == 'reg' else None
-                if d is not None and d.op in ('or', 'and'):
-                    k = next((x for x in d.ops if x.kind == 'int'), None)
-                    if k is not None:
-                        kind, mask = ('set', k.ival & 0xffffffff) if d.op == 'or' else ('clear', ~k.ival & 0xffffffff)
-                    elif d.op == 'or':
-                        # flags |= other & MASK
-                        for x in d.ops:
-                            dx = f.defs.get(x.name) if x.kind == 'reg' else None
-                            if dx is not None and dx.op == 'and':
-                                k = next((y for y in dx.ops if y.kind == 'int'), None)
-                                if k is not None:
-                                    kind, mask = 'set', k.ival & 0xffffffff
+                ALL = 0xffffffff
+
+                def same_word(x):
+                    # a load of the very word that is stored to
+                    dx = f.defs.get(x.name) if x.kind == 'reg' else None
+                    if dx is None or dx.op != 'load' or dx.ops[0].kind != 'reg':
+                        return False
+                    gx = f.defs.get(dx.ops[0].name)
+                    return gx is not None and gx.op == 'getelementptr' and gx.srcty.strip() == sty and len(gx.ops) == 3 and gx.ops[2].kind == 'int' \
+                        and gx.ops[2].ival == g.ops[2].ival and gx.ops[0].kind == g.ops[0].kind and getattr(gx.ops[0], 'name', None) == getattr(g.ops[0], 'name', None)
+
+                def constval(x, depth=0):
+                    if x.kind == 'int':
+                        return x.ival & ALL
+                    dx = f.defs.get(x.name) if x.kind == 'reg' else None
+                    if dx is None or depth > 6 or dx.op not in ('and', 'or', 'xor') or len(dx.ops) != 2:
+                        return None
+                    a_, b_ = constval(dx.ops[0], depth + 1), constval(dx.ops[1], depth + 1)
+                    if a_ is None or b_ is None:
+                        return None
+                    return {'and': a_ & b_, 'or': a_ | b_, 'xor': a_ ^ b_}[dx.op] & ALL
+
+                def maybits(x, depth=0):
+                    # bits that can be set in a value that does not come from the word itself
+                    if constval(x) is not None:
+                        return constval(x)
+                    dx = f.defs.get(x.name) if x.kind == 'reg' else None
+                    if dx is None or depth > 6:
+                        return ALL
+                    if dx.op == 'and':
+                        return maybits(dx.ops[0], depth + 1) & maybits(dx.ops[1], depth + 1)
+                    if dx.op == 'or':
+                        return maybits(dx.ops[0], depth + 1) | maybits(dx.ops[1], depth + 1)
+                    return ALL
+
+                def changed(x, depth=0):
+                    # (bits that may differ from the word's old value, does x derive from the word at all)
+                    if same_word(x):
+                        return 0, True
+                    dx = f.defs.get(x.name) if x.kind == 'reg' else None
+                    if dx is None or depth > 6 or dx.op not in ('and', 'or'):
+                        return ALL, False
+                    (ca, da), (cb, db) = changed(dx.ops[0], depth + 1), changed(dx.ops[1], depth + 1)
+                    if dx.op == 'and':
+                        if da and not db:
+                            return ca | (~maybits(dx.ops[1]) & ALL), True
+                        if db and not da:
+                            return cb | (~maybits(dx.ops[0]) & ALL), True
+                    else:
+                        if da and not db:
+                            return ca | maybits(dx.ops[1]), True
+                        if db and not da:
+                            return cb | maybits(dx.ops[0]), True
+                    if da and db:
+                        return ca | cb, True
+                    return ALL, False
+                ch, derived = changed(ins.ops[0])
+                if not derived or ch == ALL:
+                    kind, mask = 'assign', None
+                else:
+                    kind, mask = 'set', ch          # ('set' or 'clear': the bits that can change)
                 out.append((f, ins, sty[8:], kind, mask, g.ops[0]))
     return out
 
@@ -500,6 +546,8 @@ def _is_fresh(c, f, v, depth=0):
             return False
         sites = [(g, call) for m in c.modules for g in m.funcs.values() for call in g.calls(f.name)]
         return bool(sites) and all(pos < len(call.args) and _is_fresh(c, g, call.args[pos], depth + 1) for g, call in sites)
+    if d.op == 'alloca':
+        return True          # a local scratch record
     if d.op == 'bitcast':
         return _is_fresh(c, f, d.ops[0], depth)
     if d.op == 'getelementptr':
@@ -541,7 +589,7 @@ def flag_words(c, chk, rid_ctx=None, rid_opt=None):
             else:
                 chk.fail(rid_ctx, 'context-flags-written:%s' % f.name, c.where(ins),
                          '%s() writes the flag word of a context that already exists (%s): sections created in it afterwards inherit the word wholesale, '
-                         'so the change spreads to instances that have nothing to do with the one at hand' % (f.name, 'sets 0x%x' % mask if kind == 'set' else 'clears 0x%x' % mask if kind == 'clear' else 'assigns it'))
+                         'so the change spreads to instances that have nothing to do with the one at hand' % (f.name, 'changes bits 0x%x' % mask if kind == 'set' else 'assigns it'))
         if sty == 'cfg_opt_t' and rid_opt:
             no += 1
             allowed = 0
@@ -556,7 +604,7 @@ def flag_words(c, chk, rid_ctx=None, rid_opt=None):
                 chk.fail(rid_opt, 'declaration-bit-written:%s:0x%x' % (f.name, mask & ~allowed), c.where(ins),
                          '%s() %s bit(s) 0x%x of an option\'s flag word, which are part of its declaration: the change stays in the context\'s own '
                          'option table, so every later parse into this context sees a different schema than the first one did'
-                         % (f.name, 'sets' if kind == 'set' else 'clears', mask & ~allowed))
+                         % (f.name, 'changes', mask & ~allowed))
             else:
                 chk.ok(rid_opt, '%s: %s 0x%x' % (f.name, kind, mask), 'state bits only', nontrivial=False)
     if rid_ctx:
